@@ -27,18 +27,18 @@ Proof. apply in_chunks; [exact days_sweep_1|exact days_sweep_2|exact days_sweep_
 Lemma civil_all d : day_lo <= d < day_lo + day_count -> civil_ok d = true.
 Proof. apply in_chunks; [exact civil_sweep_1|exact civil_sweep_2|exact civil_sweep_3|exact civil_sweep_4]. Qed.
 
-Lemma day_roundtrip d : day_lo <= d < day_lo + day_count -> day_parse (day_text d) = Some d /\ length (day_text d) = 16%nat.
+Lemma day_roundtrip d : day_lo <= d < day_lo + day_count -> day_parse (day_text d) = Some d /\ length (day_text d) = 16%nat /\ no_semi (day_text d) = true.
 Proof.
-  intros Hd. pose proof (days_all d Hd) as H. unfold day_ok in H. apply andb_true_iff in H. destruct H as [H1 H2].
-  apply Nat.eqb_eq in H2. split; [|exact H2].
+  intros Hd. pose proof (days_all d Hd) as H. unfold day_ok in H. apply andb_true_iff in H. destruct H as [H H3]. apply andb_true_iff in H. destruct H as [H1 H2].
+  apply Nat.eqb_eq in H2. split; [|split; [exact H2|exact H3]].
   destruct (day_parse (day_text d)) as [d'|]; [|discriminate]. apply Z.eqb_eq in H1. subst. reflexivity.
 Qed.
 
-Lemma time_roundtrip r : 0 <= r < 86400 -> time_parse (time_text r) = Some r /\ length (time_text r) = 18%nat.
+Lemma time_roundtrip r : 0 <= r < 86400 -> time_parse (time_text r) = Some r /\ length (time_text r) = 18%nat /\ no_semi (time_text r) = true.
 Proof.
   intros Hr. assert (H : time_ok r = true) by (apply (all_from_Z 86400 0 time_ok ltac:(lia) times_sweep); lia).
-  unfold time_ok in H. apply andb_true_iff in H. destruct H as [H1 H2].
-  apply Nat.eqb_eq in H2. split; [|exact H2].
+  unfold time_ok in H. apply andb_true_iff in H. destruct H as [H H3]. apply andb_true_iff in H. destruct H as [H1 H2].
+  apply Nat.eqb_eq in H2. split; [|split; [exact H2|exact H3]].
   destruct (time_parse (time_text r)) as [r'|]; [|discriminate]. apply Z.eqb_eq in H1. subst. reflexivity.
 Qed.
 
@@ -67,7 +67,7 @@ Qed.
 Theorem date_roundtrip s : date_lo <= s <= date_hi -> date_parse (date_write s) = Some s.
 Proof.
   intros Hs. destruct (seconds_split s Hs) as [Hd [Hr E]].
-  destruct (day_roundtrip _ Hd) as [D1 D2]. destruct (time_roundtrip _ Hr) as [T1 T2].
+  destruct (day_roundtrip _ Hd) as [D1 [D2 _]]. destruct (time_roundtrip _ Hr) as [T1 [T2 _]].
   unfold date_parse, date_write.
   set (A := day_text (s / 86400)) in *. set (B := time_text (s mod 86400)) in *.
   assert (L : length (A ++ [c_sp] ++ B ++ zone_text) = 39%nat) by (rewrite !app_length, D2, T2; reflexivity).
@@ -93,4 +93,12 @@ Proof. intros Hs. exists s. split; [apply date_roundtrip; exact Hs|reflexivity].
 Corollary date_write_injective s t : date_lo <= s <= date_hi -> date_lo <= t <= date_hi -> date_write s = date_write t -> s = t.
 Proof.
   intros Hs Ht E. pose proof (date_roundtrip s Hs) as Rs. rewrite E, (date_roundtrip t Ht) in Rs. congruence.
+Qed.
+
+(* no ';' in the written text (what a cookie's Expires attribute needs) *)
+Lemma date_write_no_semi s : date_lo <= s <= date_hi -> no_semi (date_write s) = true.
+Proof.
+  intros Hs. destruct (seconds_split s Hs) as [Hd [Hr _]].
+  destruct (day_roundtrip _ Hd) as [_ [_ D3]]. destruct (time_roundtrip _ Hr) as [_ [_ T3]].
+  unfold date_write, no_semi in *. rewrite !forallb_app, D3, T3. reflexivity.
 Qed.
